@@ -273,8 +273,10 @@ def run_fromdict(shard):
                     flagsets = [{'ignore_lattice': True}]
                 elif not with_lattice or touched_lattice_only:
                     flagsets = [{}, {'raw': True}] if not combo or touched_lattice_only else [{}]
-                if any(nm == 'lattice-empty' for nm, _ in combo) and flagsets == [{'ignore_lattice': True}]:
-                    continue   # empty lattice under ignore_lattice: not specified
+                if touched_lattice_only and combo:
+                    # "rejects ... an empty stored lattice" holds whatever the load flags
+                    flagsets = flagsets + [{'ignore_lattice': True},
+                                           {'ignore_lattice': True, 'require_lattice': True}]
                 for flags in flagsets:
                     arg = copy.deepcopy(d)
                     ctr['calls'] += 1
